@@ -68,6 +68,8 @@ def render(doc, digests, order):
 
 
 class Run(object):
+    early = None        # (set by replay) the document that arrives as NEWCONSENSUS while the bootstrap is still running
+
     def __init__(self, salt):
         self.digests = dict((r, digest_for(r, salt)) for r in RELAYS)
         self.proto = TorControlProtocol()
@@ -111,14 +113,35 @@ class Run(object):
             return self.obs(e["d"])
         lines = render(e["d"], self.digests, RELAYS)
         try:
+            if self.state is not None and self.early is not None and e["d"] is self.early:
+                self.early = None
+                return self.obs(e["d"])         # it was delivered during the bootstrap already
             if self.state is None:
                 self.sim.info["ns/all"] = lines
+                stash = []
+                if self.early is not None:
+                    # Tor publishes a new consensus right after acknowledging the NEWCONSENSUS subscription, while the
+                    # bootstrap still has requests outstanding; the view is observed at that very moment for this step
+                    nxt = render(self.early, self.digests, RELAYS)
+                    text = "650+NEWCONSENSUS\r\n" + "".join(l + "\r\n" for l in nxt) + ".\r\n650 OK\r\n"
+
+                    def setevents(line):
+                        if "NEWCONSENSUS" in line and not stash:
+                            stash.append(self.obs(e["d"]))
+                            return b"250 OK\r\n" + text.encode("latin-1")
+                        return None
+                    self.sim.handlers["SETEVENTS"] = setevents
                 self.state = TorState(self.proto)
                 self.sim.pump()
+                self.sim.handlers.pop("SETEVENTS", None)
                 if not self.state.post_bootstrap.called or isinstance(self.state.post_bootstrap.result, failure.Failure):
                     self.exc = True
                     self.errors.append("bootstrap: %r" % (getattr(self.state.post_bootstrap, "result", None),))
                     self.state.post_bootstrap.addErrback(lambda f: None)
+                if stash:
+                    return stash[0]
+                if self.early is not None:
+                    self.early = None       # (the subscription was never seen: deliver it as an ordinary event later)
             else:
                 text = "650+NEWCONSENSUS\r\n" + "".join(l + "\r\n" for l in lines) + ".\r\n650 OK\r\n"
                 self.sim.event(text)
@@ -181,8 +204,11 @@ class Run(object):
         return dict(relays=relays, byname=byname, guards=guards, auths=auths, nrelays=len(allr), exc=self.exc)
 
 
-def replay(script, salt):
+def replay(script, salt, early=False):
     run = Run(salt)
+    docs = [e for e in script if e["a"] != "Lookup"]
+    if early and len(docs) >= 2 and script[0]["a"] != "Lookup" and script[1]["a"] != "Lookup":
+        run.early = script[1]["d"]
     steps = []
     for e in script:
         s = dict(e)
@@ -190,7 +216,7 @@ def replay(script, salt):
         steps.append(s)
         if run.exc:
             break
-    return dict(steps=steps, salt=salt, errors=run.errors[:2])
+    return dict(steps=steps, salt=salt, early=bool(early), errors=run.errors[:2])
 
 
 def rand_doc(rng, nicks=("n1", "n2", "n3")):
